@@ -415,6 +415,13 @@ def _aggregate(mod, prop, tier, seed, level, kind, results, skipped, nbatches, t
             print("VIOLATION property=%s replay=%s" % (prop, path))
             print("  signature=%s what=%s" % (s, str(v.get("what"))[:300]))
         rc = 1
+    elif not replaying and sum(1 for x in inconclusive if "harness error" in x or "child died" in x) * 5 > max(1, len(results)):
+        # more than a fifth of the batches did not produce a verdict because the harness itself failed: nothing is
+        # claimed about the property (never folded into "held")
+        print("INCONCLUSIVE property=%s reason=harness-failed-in-%d-of-%d-batches" % (prop, sum(1 for x in inconclusive if "harness error" in x or "child died" in x), len(results)))
+        for x in sorted(set(x[-400:].replace("\n", " | ") for x in inconclusive))[:3]:
+            print("  " + x)
+        rc = 2
     elif unmet and not replaying:
         print("INCONCLUSIVE property=%s reason=floors-not-met %s" % (prop, ",".join(unmet)))
         for x in sorted(set(inconclusive))[:5]:
